@@ -4,4 +4,4 @@
 From Coq Require Import ExtrOcamlBasic.
 From Anko Require Import Base.Sexp Env.EnvDriver Walk.WalkDriver Interp.InterpDriver Core.CoreDriver Cli.CliDriver Conc.EnvConc Parse.ExprDriver Parse.ScannerDriver Chan.PipelineDriver Conv.ConvDriver.
 Extraction Language OCaml.
-Extraction "model.ml" c12_check c17_check interp_check c19_check c19b_check c18_check c13_check c03_check c03p_check c15_check c16_check c16f_check c11_check c11a_check.
+Extraction "model.ml" c12_check c17_check interp_check c19_check c19b_check c18_check c13_check c03_check c03p_check c15_check c16_check c16f_check c11_check c11a_check c10t_check.
